@@ -134,7 +134,9 @@ func init() {
 		Pkgs:  []string{"./internal/tlcodegen", "./internal/tlast"},
 		Funcs: `^(BeautifulError2|checkCombinatorsBackwardCompatibility(\$\d+)?|CheckBackwardCompatibility\$1)$`,
 		Bounded: []BoundedPart{{Name: "name resolution of the comparison (maps from names to positions)", Func: "tlcodegen.checkCombinatorsBackwardCompatibility$2", File: "names_bounded.go", PkgDir: "internal/tlcodegen",
-			Bound: "four combinator shapes (two type parameters with four references, two numeric parameters with two references, a function result referring to an argument, two field masks); every re-pointing of every reference combined with every declaration order (52 variants, 44 of them unsafe): each unsafe variant must be rejected"}},
+			Bound: "four combinator shapes (two type parameters with four references, two numeric parameters with two references, a function result referring to an argument, two field masks); every re-pointing of every reference combined with every declaration order (52 variants, 44 of them unsafe): each unsafe variant must be rejected"},
+			{Name: "exemption of the first appended function argument (new # mask)", Func: "tlcodegen.checkCombinatorsBackwardCompatibility", File: "funcargs_bounded.go", PkgDir: "internal/tlcodegen",
+				Bound: "three old functions (no # argument, unused # argument, # argument used as mask) and every sequence of 1..3 appended arguments over {unmasked non-#, unmasked #, masked by the new #, masked by the old # on a free bit, masked by the old # on the used bit} (137 variants, 106 of them certainly unsafe): each unsafe variant must be rejected"}},
 		Scope: "the comparison of two versions of one combinator (checkCombinatorsBackwardCompatibility with its closures compareTypes and fillMapping) and the bare-use check of CheckBackwardCompatibility (closure checkBoxUsage). Proved for all inputs: (1) totality - no index, nil or slice panic for type references of any depth; (2) whenever the pair is ACCEPTED: no field and no template argument was removed; every old field keeps the shape of its type at every depth (same bareness, no type argument removed, same kind and numeric value of every old argument - recursive predicate sameShape), keeps or lacks its field mask as before and keeps its mask bit; every appended field has a field mask whose bit passed checkIsSelectedBitAvailable for THAT field (for functions: every appended field but possibly the first, which may be the new mask itself); a function keeps the shape of its result type; (3) whenever checkBoxUsage accepts a type reference, the reference does not use the type that turned into a union bare, nor its constructor, at any depth and in any argument position (recursive predicate bareUse)",
 		Unverified: []string{"name resolution inside compareTypes (the maps from names to field/template positions escape into a closure and are not modelled: that two references name the same type, and that a field mask names the same field, is not part of sameShape/fieldKept) - only a BOUNDED check on the real code stands in for it", "CheckBackwardCompatibility itself (pairing constructors and functions of the two schemas by name through maps; removal of a constructor or function)", "checkIsSelectedBitAvailable / getUsedBitsForFieldMask (nested maps of usage tables): its verdict is named bitFree by a trusted contract; what is proved is that it is asked about every appended field and that its precondition (the field has a mask) holds", "checkNatUsages, extractTypes, checkAllTypeRefs", "termination of the recursion over type references (finite, acyclic syntax trees are assumed; the recursive predicates are monotone, so the definitions are consistent also without that)"},
 	})
